@@ -26,6 +26,11 @@ ASSUMPTIONS = ["contracts of WCSHelper.sky2pix_ellipse and "
                "fitting.elliptical_gaussian (units.py)"]
 
 MUTANTS = [
+    ("make_model options reordered, positional caller untouched",
+     "AegeanTools/AeRes.py",
+     "def make_model(sources, shape, wcshelper, mask=False, frac=None, sigma=4):",
+     "def make_model(sources, shape, wcshelper, mask=False, sigma=4, frac=None):",
+     "C14-R10"),
     ("sources placed without the distortion terms",
      "AegeanTools/wcs_helpers.py",
      "        pixel = self.wcs.all_world2pix(",
@@ -478,6 +483,11 @@ def run(ctx):
             len(set(canon)) == 6
     r7_promotion(ctx, prog)
     r8_outputs(ctx, prog)
+    from .. import link as _link
+    n10 = _link.argument_binding(ctx, "C14-R10", modules=["AeRes"],
+                                 what="make_residual -> make_model: mask, "
+                                 "frac, sigma")
+    ctx.floor("C14-R10", n10, 2, "internal calls in AeRes")
     # the model is placed with the inverse of the transformation that gave
     # the catalogue its positions (shared with C16-R10)
     from ..regionmodel import region_methods  # noqa: F401  (import check)
